@@ -245,7 +245,10 @@ def run_check(prop, tier, rule_fn, meta):
     t0 = time.time()
     seed = int(os.environ.get("VERIF_SEED", "0") or 0)
     ctx = Ctx(prop, tier)
-    evdir = os.path.join(ROOT, "evidence")
+    # the evidence committed under /verif/evidence describes /repo; a run against another tree (VERIF_REPO, used by the self-tests) writes
+    # its evidence and replay files under .work instead
+    scratch = os.path.realpath(REPO) != "/repo"
+    evdir = os.path.join(ROOT, "evidence") if not scratch else os.path.join(WORK, "scratch-evidence")
     os.makedirs(evdir, exist_ok=True)
     evpath = os.path.join(evdir, "%s.json" % prop)
     try:
@@ -257,7 +260,7 @@ def run_check(prop, tier, rule_fn, meta):
     findings = [o for o in ctx.obs if o.status in ("finding", "anchor-missing", "floor")]
     new = [o for o in findings if o.key not in known]
     kn = [o for o in findings if o.key in known]
-    outdir = os.path.join(ROOT, "out", prop)
+    outdir = os.path.join(ROOT, "out", prop) if not scratch else os.path.join(WORK, "scratch-out", prop)
     os.makedirs(outdir, exist_ok=True)
     for f in os.listdir(outdir):
         try:
